@@ -31,6 +31,7 @@ def rt_opts_string():
     if do(F.UNSAFE_STRING_INDEXING): s += "x"
     if do(F.INDIRECT_START_PTR): s += "i"
     if do(F.ZERO_LEN_INPUT_SUPPORT): s += "z"
+    if do(F.USE_PACKED_ENUMS): s += "p"
     return s or "-"
 
 
@@ -101,10 +102,10 @@ def gen_main(outcome):
     a('    if (!strcmp(line, "start")) {')
     a("      memset(&S, 0xAA, sizeof S);")
     a('      printf("begin\\n");')
-    a("      int r = p_start(&S);")
     if not glob:
         for h in hooks:
             a(f"      S.{h}_hook = drv_{h}_hook;")
+    a("      int r = p_start(&S);")
     a('      printf("start %s | ", code(r)); dump(&S); printf("\\n");')
     a('    } else if (!strncmp(line, "feed:", 5)) {')
     a("      size_t n; unsigned char *b = unhex(line + 5, &n);")
